@@ -26,6 +26,8 @@ class NeedChoice(Exception):
 class PathRNG(random.Random):
     """Python-side scripted generator: consumes a script of choices; raises NeedChoice at the first unscripted draw."""
 
+    fixed_float = None       # when set, every float draw returns this constant (only the integer / bit draws are enumerated)
+
     def __init__(self, script):
         super().__init__(0)
         self.script, self.pos = script, 0
@@ -38,6 +40,8 @@ class PathRNG(random.Random):
         return c
 
     def random(self):
+        if self.fixed_float is not None:
+            return self.fixed_float
         return self._take("float", None)
 
     def _randbelow(self, n):
@@ -80,8 +84,8 @@ def installed(rng):
 
     def rnd_float(size=None):
         if size is not None:
-            return np.array([rng._take("float", None) for _ in range(int(np.prod(size)))]).reshape(size)
-        return rng._take("float", None)
+            return np.array([rng.random() for _ in range(int(np.prod(size)))]).reshape(size)
+        return rng.random()
 
     def choice(a, size=None, replace=True, p=None):
         items = list(range(a)) if isinstance(a, (int, np.integer)) else list(a)
@@ -106,23 +110,36 @@ class Budget(Exception):
     pass
 
 
-def exact_law(scenario, grid=24, bisect=44, max_runs=400000):
+UNRESOLVED = ("unresolved-probability-mass",)
+
+
+def exact_law(scenario, grid=24, bisect=44, max_runs=400000, fixed_float=None, max_depth=14, max_seconds=25.0):
     """scenario() -> hashable outcome; executed many times under scripted generators.
     Returns (dict outcome -> Fraction probability, number of executions, number of float draw sites analysed)."""
+    import time as _time
     stats = {"runs": 0, "float_sites": 0}
+    t_end = _time.time() + max_seconds
 
     def run(script):
         stats["runs"] += 1
-        if stats["runs"] > max_runs:
-            raise Budget()
+        if stats["runs"] > max_runs or (stats["runs"] % 64 == 0 and _time.time() > t_end):
+            raise Budget()       # (execution or wall-clock budget of ONE enumeration: the caller skips this sub-monitor)
         rng = PathRNG(script)
+        rng.fixed_float = fixed_float
         with installed(rng):
             try:
                 return ("done", scenario())
             except NeedChoice as nc:
                 return ("need", nc.kind, nc.arity)
+            except RecursionError:
+                # (an implementation that retries by calling itself: the scripted generator can keep choosing the retry branch)
+                return ("done", UNRESOLVED)
 
     def law(script):
+        if len(script) > max_depth:
+            # rejection / retry loops are infinite trees: beyond max_depth draws the remaining mass is reported as UNRESOLVED
+            # (callers compare probabilities up to that mass)
+            return {UNRESOLVED: Fraction(1)}
         r = run(script)
         if r[0] == "done":
             return {r[1]: Fraction(1)}
@@ -168,3 +185,22 @@ def exact_law(scenario, grid=24, bisect=44, max_runs=400000):
         return out
     result = law([])
     return result, stats["runs"], stats["float_sites"]
+
+
+def replaced_slot_law(make, k, fixed_float, max_updates=400, max_runs=80000):
+    """Exact law of WHICH slot a reservoir overwrites at its first replacement, with every float draw pinned to `fixed_float`
+    (so that the admission schedule is deterministic) and every integer / bit draw enumerated with its exact weight.
+    Returns (law, executions); outcomes are slot indices, or a tuple / string describing anything else that happened."""
+    def scen():
+        st = make()
+        prev = None
+        for i in range(max_updates):
+            st.update({"t": i})
+            cur = [d["t"] for d in st.get_data()[0]]
+            if i >= k and prev is not None and cur != prev:
+                ch = [s_ for s_ in range(len(cur)) if s_ >= len(prev) or prev[s_] != cur[s_]]
+                return ch[0] if len(ch) == 1 and len(cur) == k and cur[ch[0]] == i else ("odd", tuple(ch), len(cur))
+            prev = cur
+        return "no-replacement"
+    law, runs, _ = exact_law(scen, fixed_float=fixed_float, max_runs=max_runs)
+    return law, runs
